@@ -51,6 +51,10 @@ class Report:
         else:
             self.instances.append(Instance(rule, key, "violation", detail, where, True, extra))
 
+    def is_known(self, rule: str, key: str) -> bool:
+        kf = self._known.get((rule, key))
+        return kf is not None and kf.get("status") == "known"
+
     def check(self, cond: bool, rule: str, key: str, detail_ok: str = "", detail_bad: str = "", where: str = "", **extra: Any) -> bool:
         if cond:
             self.ok(rule, key, detail_ok, where, **extra)
